@@ -718,7 +718,8 @@ impl ParamPair {
     pub fn new(name: &str, value: &Data) -> ParamPair {
         ParamPair {
             name: name.to_string(),
-            value: value.clone(),
+            // the pair travels (event payload, invoke parameter): it must not share elements with the data store
+            value: value.deep_clone(),
         }
     }
 }
